@@ -89,7 +89,7 @@ def strip_pad_equal(a: bytes, b: bytes):
     return a == b
 
 
-def run_client_case(program, data, mask, init_name):
+def run_client_case(program, data, mask, init_name, form="steps"):
     """Return None if everything agrees, else (signature, expected, observed)."""
     from dissect.cobaltstrike import c2
 
@@ -110,7 +110,15 @@ def run_client_case(program, data, mask, init_name):
     try:
         steps = to_lib(program)
         steps_before = list(steps)
-        tr = c2.HttpDataTransform(steps)
+        if form == "steps":
+            tr = c2.HttpDataTransform(steps)
+        else:
+            # the same single-block program handed over as bare block steps plus the build= keyword, in transform
+            # order (reverse=False) or in recover order (reverse=True)
+            assert program[0][0] == "BUILD" and len(kinds) == 1
+            steps = steps[1:] if form == "build-kw" else steps[1:][::-1]
+            steps_before = list(steps)
+            tr = c2.HttpDataTransform(steps, reverse=(form == "build-kw-reversed"), build=kinds[0])
         req0 = mk_request(c2, initial)
         try:
             out = tr.transform(c2.C2Data(**c2d), request=req0)
@@ -190,6 +198,7 @@ def c2d_js(d):
 
 
 def explore_program(acc, program, seed, inits=("none", "populated"), datas=None):
+    forms = program[0][0] == "BUILD" and sum(1 for op, _ in program if op == "BUILD") == 1 and datas is None
     nmask = sum(1 for op, _ in program if op == "MASK")
     masks = MASKS if nmask else MASKS[4:]
     nenc = sum(1 for op, _ in program if op in M.ENCODERS)
@@ -202,6 +211,13 @@ def explore_program(acc, program, seed, inits=("none", "populated"), datas=None)
                 if bad:
                     dj = {k: (None if v is None else v.hex()) for k, v in data.items()} if isinstance(data, dict) else data.hex()
                     acc.fail(bad[0], {"kind": "client", "program": to_js(program), "data": dj, "mask": mask, "initial": init}, bad[1], bad[2])
+                if forms and di in (1, 3) and mask == masks[0] and init == inits[0]:
+                    for form in ("build-kw", "build-kw-reversed"):
+                        acc.transitions += 1
+                        bad = run_client_case(program, data, mask, init, form=form)
+                        acc.case((tuple(program), di, mask, init, form), nontrivial=bool(data) or nenc > 0, outcome=bad[0] if bad else (len(data), nenc))
+                        if bad:
+                            acc.fail(bad[0] + "/" + form, {"kind": "client", "program": to_js(program), "data": data.hex(), "mask": mask, "initial": init, "form": form}, bad[1], bad[2])
 
 
 def chunk_single(chunk, acc):
@@ -369,7 +385,7 @@ def replay(case):
     if case["kind"] == "client":
         d = case["data"]
         d = {k: (None if v is None else bytes.fromhex(v)) for k, v in d.items()} if isinstance(d, dict) else bytes.fromhex(d)
-        bad = run_client_case(from_js(case["program"]), d, case["mask"], case["initial"])
+        bad = run_client_case(from_js(case["program"]), d, case["mask"], case["initial"], form=case.get("form", "steps"))
     elif case["kind"] == "server":
         steps = [(op, arg) for op, arg in case["recover"]]
         bad = run_server_case(steps, bytes.fromhex(case["data"]), case["mask"], case["filler"])
